@@ -14,14 +14,19 @@ Clauses of the property and where they are proved, for every route, tree, geomet
    included (`route_geometry_is_concatenation`, `route_geometry`, `route_geometry_keeps_every_point`,
    `formats_agree_on_geometry`);
  * a missing geometry is an error, never a shorter or shifted geometry (`missing_geometry_is_error`,
-   `geometry_rendered_iff_all_stored`, `tree_missing_geometry_is_error`, `response_error_on_missing_geometry`,
-   `response_has_route_or_is_error`);
+   `geometry_rendered_iff_all_stored`, `file_table_rows`, `tree_missing_geometry_is_error`,
+   `response_error_on_missing_geometry`, `response_error_on_missing_tree_geometry`,
+   `response_has_route_or_is_error`, `response_route_is_rendering`, `response_tree_is_rendering`);
  * tree outputs have exactly one entry per branch, independent of the hash map's iteration order
    (`tree_output_one_entry_per_branch`, `tree_output_edge_ids`, `tree_output_lines`,
    `tree_output_order_independent`);
  * the attached identifiers are the stored ones (`uuid_attached_are_stored`, `uuid_error_iff`,
-   `uuid_never_panics`, `response_uuids_are_stored`);
- * the summary counts are the sizes of what is rendered (`summary_counts`).
+   `uuid_never_panics`, `response_uuids_are_stored`, `response_ids_and_counts`);
+ * the summary counts are the sizes of what is rendered (`summary_counts`, `summary_counts_single`).
+No defect of the code against C20 was found, so there is no `_counterexample` theorem.  Two behaviours outside the
+literal statement are recorded as theorems because they turn a whole response into an error response:
+`empty_route_is_error_response` (origin = destination with a route format configured) and the uuid plugin's
+`missingField "destination_vertex"` outcome for destination-less queries (see the examples of section 4).
 -/
 import Compass.Proofs.Output
 
@@ -247,6 +252,14 @@ theorem geometry_rendered_iff_all_stored (g : Geoms) (f : Fmt) (r : List EdgeTra
     | geoJson => exact ⟨_, c⟩
     | wkt => exact ⟨_, a⟩
     | wkb => exact ⟨_, b⟩
+
+/-- the table read from the geometry file (one WKT row per edge id): the rows that are missing are exactly the
+edge ids at or beyond the number of rows, and row `e` is the geometry of edge `e` -/
+theorem file_table_rows (rows : List Line) (e : Nat) :
+    (tableOf rows e = none ↔ rows.length ≤ e) ∧ ∀ (h : e < rows.length), tableOf rows e = some rows[e] := by
+  constructor
+  · simp [tableOf]
+  · intro h; simp [tableOf, h]
 
 -- non-vacuity: a three-edge route with a repeated edge; a route whose middle edge has no row
 example : generateRouteOutput (tableOf [[⟨1, 2⟩, ⟨3, 4⟩], [⟨3, 4⟩, ⟨7, 8⟩, ⟨9, 10⟩]]) .wkt
